@@ -906,6 +906,9 @@ m("c01-estimation-uses-node-tracer", "C01", "x/evm/keeper/grpc_query.go",
 m("c01-begin-block-gas-left", "C01", "app/app.go",
   "\tctx.GasMeter().RefundGas(ctx.GasMeter().GasConsumed(), \"begin block gas is not charged to transactions\")\n", "",
   "meter-refunded-after-the-begin-blockers", "the begin blockers' gas stays on the block context")
+m("c20-chain-id-not-set-at-construction", "C20", "app/app.go",
+  "\tevmKeeper.WithChainIDString(chainID)\n", "",
+  "eip155ChainID#set-at-construction", "the chain id is bound by the first BeginBlock only")
 for prop in ("C16", "C07"):
     m("c%s-gas-meter-without-precharge" % prop[1:], prop, "precompiles/common/precompile.go",
       "sdk.NewGasMeter(initialGas + contract.Gas)", "sdk.NewGasMeter(contract.Gas)",
